@@ -28,7 +28,7 @@ func isIOEOF(info *types.Info, e ast.Expr) bool {
 
 func (c *Ctx) ruleDelim(rule string) {
 	R, P := c.R, c.P
-	R.Rule(rule, "protodelim framing discipline (size bound and sign test dominate every use of the decoded size; error identity on every return; prefix is the length of the bytes written after it)", 8)
+	R.Rule(rule, "protodelim framing discipline (size bound and sign test dominate every use of the decoded size; error identity on every return; prefix is the length of the bytes written after it; success only through o.Unmarshal)", 9)
 	fi := c.need(rule, "encoding/protodelim.UnmarshalOptions.UnmarshalFrom")
 	if fi != nil {
 		info := fi.Info()
@@ -184,6 +184,28 @@ func (c *Ctx) ruleDelim(rule string) {
 				return isBE && !val && be.Op == token.NEQ && isNilIdent(info, be.Y) && objOf(info, be.X) != nil && objOf(info, be.X).Name() == "err"
 			})
 			R.Check(ok, rule, fi.Key+" unmarshal #"+itoa(i+1), P.Pos(call), "decodes only a completely read body", "Unmarshal is reached although the body read may have failed: a short body would be decoded")
+		}
+	}
+	if fi := c.need(rule, "encoding/protodelim.UnmarshalOptions.UnmarshalFrom"); fi != nil {
+		// success only through Unmarshal: an empty frame still has to reset the
+		// destination and check required fields
+		info := fi.Info()
+		g := fi.CFG()
+		k := 0
+		walk(fi.Decl.Body, func(x ast.Node) bool {
+			rs, ok := x.(*ast.ReturnStmt)
+			if !ok || len(rs.Results) != 1 || !isNilIdent(info, rs.Results[0]) {
+				return true
+			}
+			k++
+			ok = g.DominatedByNode(rs, func(n ast.Node) bool {
+				return containsCall(info, n, "proto.UnmarshalOptions.Unmarshal") != nil
+			})
+			R.Check(ok, rule, fi.Key+" success return #"+itoa(k), P.Pos(rs), "every path to `return nil` passes through o.Unmarshal", "UnmarshalFrom can report success without calling o.Unmarshal: for such a frame (e.g. an empty message) the destination keeps its previous content and required fields are not checked, so a reused destination does not read back the written sequence")
+			return true
+		})
+		if k == 0 {
+			R.Unk(rule, fi.Key+" success return", P.Pos(fi.Decl), "no `return nil` found")
 		}
 	}
 	if fi := c.need(rule, "encoding/protodelim.MarshalOptions.MarshalTo"); fi != nil {
